@@ -945,12 +945,13 @@ def run(ck: core.Check):
     finally:
         env.write(saved)
     ck.cov["decorated_generators"] = gstats
+    ck.log("globals histories + decorated generators done")
 
     # ---------------------------------------------------------------- behaviour: what the settings DO, not what the globals read
     bstats = {"histories": 0, "behaviour_snapshots": 0, "mismatches": 0}
     try:
         env.prepare_probes()
-        env.asym_left = ck.pick(30, 400)
+        env.asym_left = ck.pick(18, 400)
         base = baselines(env, ck)
         ck.cov["behaviour_baselines"] = {MANAGERS[j]: base[j] for j in range(3)}
         ck.cov["behaviour_baselines"]["asymmetric_operators_per_backend"] = base[3] if len(base) > 3 else None
@@ -1005,13 +1006,14 @@ def run(ck: core.Check):
     finally:
         env.write(saved)
     ck.cov["behaviour"] = bstats
+    ck.log("behavioural histories done")
 
     # ---------------------------------------------------------------- settings seen through lazily constructed objects
     cstats = {"scenarios": 0, "uses": 0, "body_runs": 0, "kinds": {}, "not_observable": {}}
     try:
         if not hasattr(env, "p_const"):
             env.prepare_probes()
-        n_car = ck.pick(42, 630)
+        n_car = ck.pick(35, 630)
         for k in range(n_car):
             sc = gen_carrier_scenario(rng, k)
             try:
@@ -1037,6 +1039,7 @@ def run(ck: core.Check):
     finally:
         env.write(saved)
     ck.cov["carriers"] = cstats
+    ck.log("carrier scenarios done")
 
 
     ck.cov.update(
